@@ -321,7 +321,7 @@ EXT = {
 EXT4 = {'C03': " Fourth round: Newman's random-walk betweenness against its electrical definition in exact integer arithmetic (number of spanning trees and Kirchhoff determinants; no matrix inverse, no grounded node) on every connected undirected graph of up to 6 nodes; Arenas-type random-walk betweenness as expected arrivals summed over all targets and sources, (1 - P(i))^-1 P(i) = M(i)^-1 A(i) with the integer absorbing matrix M(i), up to 5 nodes.", 'C01': ' Fourth round: component-wise tokens for joint / inter-system settings; there-and-back histories (a, b, a) with an effective middle step in the quick tier; the mode kept_threshold (data recomputed while a density-derived threshold is kept: undetermined, nothing observed) instead of disabled transitions; queries with arguments discovered from parameter names; geographic argument patterns and grid reports; CoupledClimateNetwork with link-attribute mutators and wrapper queries; the public embedding setter of Surrogates as a mutator.', 'C02': ' Fourth round: the single-network n.s.i. measures observed on the InteractingNetworks object AFTER its group measures; every failing site is named (a listed finding no longer hides another).', 'C04': " Fourth round: geographic argument patterns and the grid's own reports (coordinates, Euclidean and angular distances) under renumbering; a second pass over the spatial / resistive views.", 'C05': ' Fourth round: a USED network (every link-weighted measure asked once), its copy and its file.', 'C08': ' Fourth round: the histograms are unchanged by resample_diagline_dist / resample_vertline_dist (which return the requested number of lines).', 'C09': ' Fourth round: there-and-back histories through the data-recomputing setters (mode kept_threshold); DensityMiss and QuantileDef (the selected threshold is a value of the current similarity matrix) for the data-driven networks.', 'C10': " Fourth round: objects with a history (a larger maximal lag asked before, the object's own arrays symmetrised, the question repeated: Repeatable).", 'C11': ' Fourth round: link lengths of the coupled network given in two steps (other lengths asked once first).', 'C13': ' Fourth round: decimal time axis (1950 + (t+1)/24, not representable in single precision); the exception of a window change is an observation.', 'C15': ' Fourth round: TwinWalkSM - the twin walk as a state machine whose draws are action parameters; every behaviour with at most three free draws is replayed on Surrogates.twin_surrogates with Python\'s random source scripted to these draws, and TLC requires the library\'s twins, exactly the scripted draws consumed and exactly the walk the draws determine (the LAST option is the own successor); the public embedding setter between two equal twin_surrogates calls; OriginalStates over the embedded states.', 'C16': ' Fourth round: significance levels (shuffle / analytic) asked before the analyses on half of the objects; column-major event matrices.', 'C17': ' Fourth round: chains of three degree-preserving randomisations (geographical models, global rewiring) on one spatial network.', 'C19': " Fourth round: the chunk-partition invariant for EVERY N and max_parts discharged by Apalache (Apa_Chunks, with a refuted negative control); hub-in-the-middle components of >= 21 nodes (sweep of hub positions); the docstring's spelling of the stopping mode as an argument variant."}
 
 
-EXT5 = {'C02': ' Fifth round: networks of 1030 nodes (matrices beyond 2^20 entries): the path-based n.s.i. measures under one split (Val_C02big).', 'C04': ' Fifth round: ResNetwork with non-symmetric resistances under renumbering.', 'C11': ' Fifth round: cross clustering of large groups (cocktail-party family up to 300 nodes, closed forms proved on the small members; Val_C11big).', 'C01': " Fifth round: the repository's own test suite under the lookup hook in shadow mode (thorough tier: every cache hit of every test re-evaluated, Val_Suite); gigaohm tokens of the resistive family.", 'C03': ' Fifth round: Arenas-type random-walk betweenness by expected arrivals (Defs_RandomWalk).', 'C07': ' Fifth round: non-embedded cross plots on a common level of 2^27.', 'C09': ' Fifth round: column-major and read-only similarity matrices.', 'C10': ' Fifth round: common offset 2^27 (level / fluctuation 10^8).', 'C12': ' Fifth round: a coordinate in sixteenths next to an offset of 2^23.', 'C14': ' Fifth round: extreme power-of-two units of values and times.', 'C15': ' Fifth round: twins of periodic series of up to 300 samples against a closed form proved on the small instances.', 'C16': ' Fifth round: a change of the time unit by 2^-40 / 2^30.', 'C17': ' Fifth round: distance matrices as float32 block / strided / column-major views; cross-link groups of four with the inner nodes out of order.', 'C18': ' Fifth round: gigaohm update history (every admittance below 10^-8 before and after).', 'C19': ' Fifth round: ChunkPartition - the chunks submitted per component partition its node range (bounds read from the job arguments); components beyond 100 nodes per worker.', 'C06': " Fifth round: significance-test helpers of Surrogates as first queries (recorded finding: they normalise the caller's data in place); distance_based_measures / hamming_distance_from; column-major / read-only inputs; a network without links as a class target."}
+EXT5 = {'C02': ' Fifth round: networks of 1030 nodes (matrices beyond 2^20 entries): the path-based n.s.i. measures under one split (Val_C02big).', 'C04': ' Fifth round: ResNetwork with non-symmetric resistances under renumbering.', 'C11': ' Fifth round: cross clustering of large groups (cocktail-party family up to 300 nodes, closed forms proved on the small members; Val_C11big).', 'C01': " Fifth round: the repository's own test suite under the lookup hook in shadow mode (thorough tier: every cache hit of every test re-evaluated, Val_Suite); gigaohm tokens of the resistive family.", 'C03': ' Fifth round: Arenas-type random-walk betweenness by expected arrivals (Defs_RandomWalk).', 'C07': ' Fifth round: non-embedded cross plots on a common level of 2^27.', 'C09': ' Fifth round: column-major and read-only similarity matrices; Hilbert networks on data with a duplicated series (no link between the two in the directed network).', 'C10': ' Fifth round: common offset 2^27 (level / fluctuation 10^8); the climate similarity classes on data flagged as anomalies; long series (Val_C10long: compiled vs pure-Python cross-correlation beyond 1024 samples, closed forms ln 2 / 0 of the binned surrogate test at 10^5 samples).', 'C12': ' Fifth round: a coordinate in sixteenths next to an offset of 2^23; rectangular grids from axes of different types.', 'C14': ' Fifth round: extreme power-of-two units of values and times.', 'C15': ' Fifth round: twins of periodic series of up to 300 samples against a closed form proved on the small instances.', 'C16': ' Fifth round: a change of the time unit by 2^-40 / 2^30.', 'C17': ' Fifth round: distance matrices as float32 block / strided / column-major views; cross-link groups of four with the inner nodes out of order.', 'C18': ' Fifth round: gigaohm update history (every admittance below 10^-8 before and after).', 'C19': ' Fifth round: ChunkPartition - the chunks submitted per component partition its node range (bounds read from the job arguments); components beyond 100 nodes per worker.', 'C06': " Fifth round: significance-test helpers of Surrogates as first queries (recorded finding: they normalise the caller's data in place); distance_based_measures / hamming_distance_from; column-major / read-only inputs; a network without links as a class target."}
 
 
 def main():
